@@ -219,10 +219,38 @@ Proof.
   specialize (H A). vm_compute in H. discriminate.
 Qed.
 
+(* the keywords the two classmethods keep, as names *)
+Definition classmethod_names (l : list pystr) : list pystr :=
+  filter (fun n => negb (str_in n classmethod_own)) l.
+
+Lemma classmethod_kws_names (l : list sparam) : map fst (classmethod_kws l) = classmethod_names (map fst l).
+Proof.
+  unfold classmethod_kws, classmethod_names. induction l as [|p t IH]; [reflexivity|].
+  cbn [filter map]. destruct (negb (str_in (fst p) classmethod_own)); cbn [map]; rewrite IH; reflexivity.
+Qed.
+
+Lemma forallb_filter_sub {A} (q p : A -> bool) l : forallb q l = true -> forallb q (filter p l) = true.
+Proof.
+  intro H. apply forallb_forall. intros x Hx. apply filter_In in Hx. destruct Hx as [Hx _].
+  rewrite forallb_forall in H. apply H. exact Hx.
+Qed.
+
+Lemma classmethod_names_id l :
+  forallb (fun n => negb (str_in n classmethod_own)) l = true -> classmethod_names l = l.
+Proof.
+  unfold classmethod_names. induction l as [|x t IH]; [reflexivity|].
+  cbn [forallb filter]. intro H. apply andb_true_iff in H. destruct H as [H1 H2].
+  rewrite H1, (IH H2). reflexivity.
+Qed.
+
+(* shallow_clone_with_overrides carries the keywords of __init__; from_other_class / from_trusted_data carry them
+   except those named like one of their own parameters; same ** parameter; every keyword has a default *)
 Lemma methods_same_keywords ar ast C :
   map fst (m_kwparams (stub_shallow_clone ar ast C)) = map fst (m_kwparams (stub_init ar ast C)) /\
-  map fst (m_kwparams (stub_from_other_class ar ast C)) = map fst (m_kwparams (stub_init ar ast C)) /\
-  map fst (m_kwparams (stub_from_trusted_data ar ast C)) = map fst (m_kwparams (stub_init ar ast C)) /\
+  map fst (m_kwparams (stub_from_other_class ar ast C))
+    = classmethod_names (map fst (m_kwparams (stub_init ar ast C))) /\
+  map fst (m_kwparams (stub_from_trusted_data ar ast C))
+    = classmethod_names (map fst (m_kwparams (stub_init ar ast C))) /\
   m_kw (stub_shallow_clone ar ast C) = m_kw (stub_init ar ast C) /\
   m_kw (stub_from_other_class ar ast C) = m_kw (stub_init ar ast C) /\
   m_kw (stub_from_trusted_data ar ast C) = m_kw (stub_init ar ast C) /\
@@ -236,7 +264,24 @@ Proof.
   { intro l. unfold with_none. apply forallb_forall. intros p H. apply in_map_iff in H.
     destruct H as [q [H _]]. subst p. reflexivity. }
   cbn [stub_shallow_clone stub_from_other_class stub_from_trusted_data stub_init m_kwparams m_kw].
-  rewrite !N, !D. repeat split; reflexivity.
+  rewrite !classmethod_kws_names, !N, !D.
+  repeat split; try reflexivity; apply forallb_filter_sub; apply D.
+Qed.
+
+(* when no field is named cls / source_object / ignore_props, all three carry exactly the keywords of __init__ *)
+Lemma methods_same_keywords_full ar ast C :
+  no_classmethod_own C = true ->
+  map fst (m_kwparams (stub_from_other_class ar ast C)) = map fst (m_kwparams (stub_init ar ast C)) /\
+  map fst (m_kwparams (stub_from_trusted_data ar ast C)) = map fst (m_kwparams (stub_init ar ast C)).
+Proof.
+  intro H.
+  destruct (methods_same_keywords ar ast C) as [_ [E2 [E3 _]]]. rewrite E2, E3.
+  assert (F : classmethod_names (map fst (m_kwparams (stub_init ar ast C))) = map fst (m_kwparams (stub_init ar ast C))).
+  { apply classmethod_names_id. apply forallb_forall. intros n Hn.
+    cbn [stub_init m_kwparams] in Hn. rewrite ordered_args_names, type_info_names in Hn.
+    apply nonconst_names in Hn. destruct Hn as [Hn _].
+    unfold no_classmethod_own in H. rewrite forallb_forall in H. apply H. exact Hn. }
+  rewrite F. split; reflexivity.
 Qed.
 
 Lemma init_order_wf ar ast C : order_wf false (m_kwparams (stub_init ar ast C)) = true.
@@ -272,32 +317,34 @@ Proof.
   - apply IH; [exact Ha' | exact Hb|]. intros y Hy. apply Hd. right. exact Hy.
 Qed.
 
+(* only a field named self still collides (with the first parameter of __init__ / shallow_clone_with_overrides);
+   the classmethods never repeat an argument name *)
 Lemma no_duplicate_arguments apd C :
-  no_reserved C = true ->
-  NoDup (arg_names (stub_init apd apd C)) /\
-  NoDup (arg_names (stub_shallow_clone apd apd C)) /\
+  (no_self C = true ->
+   NoDup (arg_names (stub_init apd apd C)) /\ NoDup (arg_names (stub_shallow_clone apd apd C))) /\
   NoDup (arg_names (stub_from_other_class apd apd C)) /\
   NoDup (arg_names (stub_from_trusted_data apd apd C)).
 Proof.
-  intro Hres.
   destruct (methods_same_keywords apd apd C) as [E1 [E2 [E3 _]]].
   pose proof (stub_init_names_nodup apd C) as ND. unfold stub_init_names in ND.
-  assert (Hfree : forall n, In n (map fst (m_kwparams (stub_init apd apd C))) -> ~ In n reserved).
-  { intros n Hn. apply (stub_init_names_spec apd C n) in Hn. destruct Hn as [Hn _].
-    unfold no_reserved in Hres. rewrite forallb_forall in Hres. specialize (Hres n Hn).
-    apply negb_true_iff, str_in_false in Hres. exact Hres. }
-  assert (Hfix1 : forall x, In x [s2p "self"] -> In x reserved).
-  { intros x [H | []]. subst. vm_compute. tauto. }
-  assert (Hfix2 : forall x, In x [s2p "cls"; s2p "source_object"; s2p "ignore_props"] -> In x reserved).
-  { intros x H. vm_compute in H. vm_compute. tauto. }
   assert (N1 : NoDup [s2p "self"]) by (constructor; [intros [] | constructor]).
   assert (N2 : NoDup [s2p "cls"; s2p "source_object"; s2p "ignore_props"]).
   { apply nodup_names_spec. vm_compute. reflexivity. }
+  assert (NDc : NoDup (classmethod_names (map fst (m_kwparams (stub_init apd apd C))))).
+  { unfold classmethod_names. apply NoDup_filter. exact ND. }
   unfold arg_names. rewrite E1, E2, E3.
   cbn [stub_init stub_shallow_clone stub_from_other_class stub_from_trusted_data m_fixed].
   change (filter (fun n => negb (pystr_eqb n (s2p "*"))) [s2p "self"]) with [s2p "self"].
   change (filter (fun n => negb (pystr_eqb n (s2p "*"))) [s2p "cls"; s2p "source_object"; s2p "*"; s2p "ignore_props"])
     with [s2p "cls"; s2p "source_object"; s2p "ignore_props"].
-  repeat split; apply nodup_app; try assumption;
-    intros x Hx Hin; apply (Hfree x Hin); auto.
+  assert (Hc : forall x, In x [s2p "cls"; s2p "source_object"; s2p "ignore_props"] ->
+                         ~ In x (classmethod_names (map fst (m_kwparams (stub_init apd apd C))))).
+  { intros x Hx Hin. unfold classmethod_names in Hin. apply filter_In in Hin. destruct Hin as [_ Hin].
+    apply negb_true_iff, str_in_false in Hin. apply Hin. exact Hx. }
+  split; [|split; apply nodup_app; assumption].
+  intro Hself.
+  assert (Hs : forall x, In x [s2p "self"] -> ~ In x (map fst (m_kwparams (stub_init apd apd C)))).
+  { intros x [<- | []] Hin. apply (stub_init_names_spec apd C (s2p "self")) in Hin. destruct Hin as [Hin _].
+    unfold no_self in Hself. apply negb_true_iff, str_in_false in Hself. apply Hself. exact Hin. }
+  split; apply nodup_app; assumption.
 Qed.
